@@ -152,4 +152,63 @@ Proof.
   intros Ha E Hy.
   destruct (origin_gen Ha ps (init g) tr1 e tr2 (Good_init c g) V E y Hy) as [[[]|[]]|H]; auto.
 Qed.
+(** the rest runs: when the study ends FINISHED or FAILURE every step is completed (row FINISHED /
+    DRYRUN) unless it lies in the sub-tree of a step that had an own unsuccessful event *)
+Lemma poll_status s p :
+  snd (poll c g s p) = SABORT \/ snd (poll c g s p) = completion_gen g (fst (poll c g s p)).
+Proof.
+  unfold poll, execute_ready_steps_gen.
+  destruct (qcode_eqb (if negb (dry c) then qcode p else QOK) QERROR); cbn [fst snd]; auto.
+Qed.
+
+Lemma completion_normal s : completion_gen g s = SFINISHED \/ completion_gen g s = SFAILURE ->
+  cancelled s = [] /\ forall x, x < length g -> In x (completed s) \/ In x (failed s).
+Proof.
+  unfold completion_gen. intros H.
+  destruct (canceled s && is_nil (inprog s)); [destruct H; discriminate|].
+  destruct (subset (seq 0 (length g)) (completed s ++ failed s ++ cancelled s)) eqn:Es; [|destruct H; discriminate].
+  destruct (cancelled s) as [|a l] eqn:Ec; [|cbn in H; destruct H; discriminate].
+  split; auto. intros x Hx. apply subset_incl in Es. specialize (Es x). rewrite In_seq_lt in Es.
+  specialize (Es Hx). rewrite !in_app_iff in Es. cbn in Es. tauto.
+Qed.
+
+Theorem C02_rest_runs_proof tr1 e tr2 x : 0 < attempts c ->
+  run_trace c g (init g) ps = tr1 ++ e :: tr2 ->
+  e_stat e = SFINISHED \/ e_stat e = SFAILURE -> x < length g ->
+  (In x (completed (e_post e)) /\ st_done (status (getrec (e_post e) x))) \/
+  (In x (failed (e_post e)) /\
+   exists e' w, In e' (tr1 ++ [e]) /\ rown (e_post e') (done_final c (e_pin e')) w /\ reach g w x /\
+                FC (e_post e') w).
+Proof.
+  intros Ha E Hs Hx.
+  assert (He : In e (run_trace c g (init g) ps)) by (rewrite E; apply in_app_iff; right; left; reflexivity).
+  destruct (hist_is_poll e He) as (G0 & V0 & E0 & [I1 _]).
+  pose proof (poll_status (e_pre e) (e_pin e)) as PS. rewrite E0 in PS. cbn [fst snd] in PS.
+  destruct PS as [PS|PS]; [rewrite PS in Hs; destruct Hs; discriminate|].
+  rewrite PS in Hs. destruct (completion_normal (e_post e) Hs) as [Cn Cx].
+  destruct (Cx x Hx) as [Hc|Hf].
+  - left. split; auto. apply (e_sc g _ (i2_ext g _ I1)). exact Hc.
+  - right. split; auto.
+    destruct (C02_exact_proof tr1 e tr2 x Ha E (or_introl Hf)) as (e' & Hin & [(_ & Hp & _)|(w & A & B & D)]).
+    + exfalso.
+      (* popped after a cancel request: then x is cancelled in e' and stays so -- but nothing is cancelled at the end *)
+      apply in_app_iff in Hin. destruct Hin as [Hin|[<-|[]]]; [|rewrite Cn in Hp; destruct Hp].
+      apply in_split in Hin. destruct Hin as (l1 & l2 & ->).
+      assert (E' : run_trace c g (init g) ps = l1 ++ e' :: l2 ++ e :: tr2) by (rewrite E, <- app_assoc; reflexivity).
+      pose proof (hist_fc_le _ _ _ _ _ E' x (or_intror Hp)) as F1.
+      pose proof (fc_le_poll c g (e_pre e) (e_pin e) W G0 V0) as L. rewrite E0 in L. cbn [fst] in L.
+      pose proof (poll_mono c g (e_pre e) (e_pin e) W (i2_inv g _ (proj1 G0)) V0) as PM. cbv zeta in PM.
+      rewrite E0 in PM. cbn [fst] in PM. destruct PM as (_ & PMc & _).
+      (* cancelled itself is monotone along the history *)
+      assert (Hc' : In x (cancelled (e_post e))).
+      { clear F1 L. revert Hp. 
+        assert (Mono : forall a b, (forall y, In y (cancelled a) -> In y (cancelled b)) -> True) by auto.
+        pose proof (run_trace_later c g (fun a b => forall y, In y (cancelled a) -> In y (cancelled b)) W) as RL.
+        intros Hp. apply PMc. eapply (RL (fun s y H => H)); eauto.
+        - intros a b d H1 H2 y Hy. auto.
+        - intros s0 p0 G V0'. destruct (poll_mono c g s0 p0 W (i2_inv g _ (proj1 G)) V0') as (_ & B & _). exact B.
+        - apply Good_init. }
+      rewrite Cn in Hc'. destruct Hc'.
+    + exists e', w. auto.
+Qed.
 End C02.
